@@ -151,3 +151,64 @@ theorem read_by_hash {σ : Type} (be : Backend σ) (nd : Node σ) (h : BlockId) 
     simp [hk, this]
 
 end Juno.C03
+
+namespace Juno.C03
+
+/-! ### attempted operations: what juno discards has no effect -/
+
+/-- run a history of ATTEMPTED operations: an operation that fails (a guard of `Update`/`Revert`
+fires, the metadata step fails, there is nothing to revert) leaves the node as it was — the batch
+is dropped. `Simulate` and a commit that is lost are the same thing seen from the node: an `Update`
+whose result is not kept. -/
+def runL {σ : Type} (be : Backend σ) : Node σ → List Op → Node σ
+  | n, [] => n
+  | n, op :: rest =>
+    match n.step be op with
+    | .ok n' => runL be n' rest
+    | .error _ => runL be n rest
+
+theorem runL_of_run {σ : Type} (be : Backend σ) (ops : List Op) (nd nd' : Node σ) (h : run be nd ops = some nd') :
+    runL be nd ops = nd' := by
+  induction ops generalizing nd with
+  | nil => simp [run] at h; simp [runL, h]
+  | cons op rest ih =>
+    unfold run at h
+    unfold runL
+    split at h
+    · next n1 hstep => simp only [hstep]; exact ih n1 h
+    · cases h
+
+theorem runL_invariant {σ : Type} (be : Backend σ) (I : List Diff → σ → Prop)
+    (hstore : ∀ ch s s' d, I ch s → d.WF → be.update s ch.length d = .ok s' → I (d :: ch) s')
+    (hrevert : ∀ d rest s s', I (d :: rest) s → be.revert s rest.length d = .ok s' → I rest s')
+    (ops : List Op) (nd : Node σ) (hI : I nd.chain nd.st) (hwf : OpsWF ops) :
+    I (runL be nd ops).chain (runL be nd ops).st := by
+  induction ops generalizing nd with
+  | nil => exact hI
+  | cons op rest ih =>
+    have hwf' : OpsWF rest := fun id d hm => hwf id d (List.mem_cons_of_mem _ hm)
+    unfold runL
+    split
+    · next n1 hstep =>
+      apply ih n1 _ hwf'
+      cases op with
+      | store id d =>
+        obtain ⟨hb, hu⟩ := store_blocks be nd n1 id d hstep
+        have hlen : nd.blocks.length = nd.chain.length := by simp [Node.chain]
+        rw [hlen] at hu
+        have := hstore nd.chain nd.st n1.st d hI (hwf id d List.mem_cons_self) hu
+        simpa [Node.chain, hb] using this
+      | revert =>
+        obtain ⟨id, d, hb, hr⟩ := revert_blocks be nd n1 hstep
+        have hlen : n1.blocks.length = n1.chain.length := by simp [Node.chain]
+        rw [hlen] at hr
+        have hI' : I (d :: n1.chain) nd.st := by simpa [Node.chain, hb] using hI
+        exact hrevert d n1.chain nd.st n1.st hI' hr
+    · exact ih nd hI hwf'
+
+/-- the abstract state at block `k` only depends on the blocks up to `k` -/
+theorem absAt_of_common (ch1 ch2 : List Diff) (k : Nat)
+    (h : ch2.drop (ch2.length - 1 - k) = ch1.drop (ch1.length - 1 - k)) : absAt ch2 k = absAt ch1 k := by
+  unfold absAt; rw [h]
+
+end Juno.C03
